@@ -46,7 +46,6 @@ pub struct Finding {
 impl Finding {
     pub fn new(key: impl Into<String>, detail: impl Into<String>, case: Value) -> Self {
         let key: String = key.into();
-        debug_assert!(!key.contains(' '), "finding keys have no blanks: {key}");
         Self { key: key.replace(' ', "_"), detail: detail.into(), case }
     }
 }
